@@ -25,6 +25,7 @@ import (
 	"github.com/relex/slog-agent/base"
 	"github.com/relex/slog-agent/buffer/hybridbuffer"
 	"github.com/relex/slog-agent/defs"
+	"github.com/relex/slog-agent/output/fluentdforward"
 	"github.com/relex/slog-agent/util/vhook"
 
 	"verifharness/vmetrics"
@@ -56,18 +57,31 @@ func chunkData(id int, size int) []byte {
 	return b
 }
 
-func matchChunkID(name string) bool {
-	if len(name) != 3 {
-		return false
+// chunk files carry names of the shape the Forward output gives them and are recognised by that output's own matcher: the
+// matcher is what keeps the temporary file of an interrupted write ("<name>.tmp") out of the recovery
+var matchChunkID = (&fluentdforward.Config{}).MatchChunkID
+
+func chunkName(id int) string { return fmt.Sprintf("%03d-00000000.ff", id) }
+
+// idOfName gives the model's chunk id of a file name the harness made (also of its temporary file), -1 for any other name
+func idOfName(name string) int {
+	if len(name) < 3 {
+		return -1
 	}
-	_, err := strconv.Atoi(name)
-	return err == nil
+	n, err := strconv.Atoi(name[:3])
+	if err != nil {
+		return -1
+	}
+	return n
 }
 
 func emitJSON(ev string, kv ...any) {
 	m := map[string]any{"ev": ev}
 	for i := 0; i+1 < len(kv); i += 2 {
 		m[kv[i].(string)] = kv[i+1]
+		if name, ok := kv[i+1].(string); ok && kv[i].(string) == "id" {
+			m["id"] = idOfName(name) // file names to the model's ids
+		}
 	}
 	b, _ := json.Marshal(m)
 	os.Stdout.Write(append(b, '\n'))
@@ -121,7 +135,7 @@ func VictimMain(args []string) int {
 	}()
 	for i, ls := range strings.Split(*lens, ",") {
 		n, _ := strconv.Atoi(ls)
-		id := fmt.Sprintf("%03d", idOf(i))
+		id := chunkName(idOf(i))
 		emitJSON("Persist", "id", id, "n", n / *unit)
 		var old syscall.Rlimit
 		if i+1 == *victim {
@@ -178,7 +192,7 @@ func RecoverMain(args []string) int {
 					cargs.OnFinished()
 					return
 				}
-				idn, _ := strconv.Atoi(c.ID)
+				idn := idOfName(c.ID)
 				whole := len(c.Data)%*unit == 0
 				emitJSON("Forward", "id", c.ID, "len", len(c.Data) / *unit, "bytes", len(c.Data), "unitsExact", whole,
 					"intact", bytes.Equal(c.Data, chunkData(idn, len(c.Data))))
@@ -318,18 +332,20 @@ func RunScript(sc Script, work string, self string) *vtrace.Tracer {
 		}
 		l := int(st.Size()) / sc.Unit
 		if matchChunkID(n) {
-			idn, _ := strconv.Atoi(n)
-			files = append(files, []int{idn, l})
+			files = append(files, []int{idOfName(n), l})
 		} else {
-			idn, _ := strconv.Atoi(strings.TrimLeft(n[:minInt(3, len(n))], "."))
-			temps = append(temps, []int{idn, l})
+			temps = append(temps, []int{idOfName(n), l})
 		}
 	}
 	tr.Emit("Files", "files", files, "temps", temps, "unitsExact", exact)
 	if sc.Damage > 0 { // an unreadable chunk file: open and fstat succeed, read fails (EISDIR stands in for EIO)
-		p := filepath.Join(dir, fmt.Sprintf("%03d", sc.Damage))
+		p := filepath.Join(dir, chunkName(sc.Damage))
 		if st, err := os.Stat(p); err == nil && !st.IsDir() {
-			if sc.DamageKind == "zero" {
+			if sc.DamageKind == "dangling" { // the name is listed, but neither stat nor read succeed (file gone between scan and use)
+				_ = os.Remove(p)
+				_ = os.Symlink(filepath.Join(dir, "no-such-file"), p)
+				tr.Emit("Damage", "id", sc.Damage, "kind", "unreadable")
+			} else if sc.DamageKind == "zero" {
 				if st.Size() > 0 {
 					_ = os.Truncate(p, 0)
 					tr.Emit("Damage", "id", sc.Damage, "kind", "zero")
